@@ -21,7 +21,8 @@ func init() {
 			"R1 also covers append: a slice held by the compiled program (or a re-slice of it such as m.results[:0]) is never appended to while matching/replacing — with spare capacity append writes into the shared backing array. " +
 			"NOT decided: data races inside third-party code, position-base effects of the shared FileSet on printing, concurrent Apply calls beyond R1 (absence of writes to shared state)." +
 			" R5 also: runner fields written while files are processed are never read there." +
-			" R1 also: the shared token.FileSet only grows — no RemoveFile / Read anywhere in the module; writes through sync/atomic, sync.Once and sync.Map count as writes. R6 bytes kept for a file are not a window into a re-used buffer (C03-R12).",
+			" R1 also: the shared token.FileSet only grows — no RemoveFile / Read anywhere in the module; writes through sync/atomic, sync.Once and sync.Map count as writes. R6 bytes kept for a file are not a window into a re-used buffer (C03-R12)." +
+			" R5 also: the header of the per-file loop carries no value besides the position and the error list.",
 		Trusted:     append([]string{"token.FileSet is internally locked and append-only", "the go-intervals coroutine is deterministic"}, commonTrusted...),
 		Assumptions: commonAssumptions,
 	})
